@@ -143,8 +143,22 @@ def main():
     if a.replay:
         env = dict(os.environ)
         env["PYTHONPATH"] = REPO
-        p = subprocess.run([VENV_PY, os.path.join(ROOT, "pyvc", "replay_real.py"), a.replay, REPO], env=env, cwd="/")
-        sys.exit(p.returncode)
+        path = os.path.abspath(a.replay)
+        if path.endswith(".noinput.json"):
+            d = json.load(open(path))
+            print("no failing input was found for this violation; failed obligation: %s\nsolver: %s %s\nclause: %s" % (
+                d.get("obligation"), d.get("solver_result"), d.get("reason") or "", d.get("clause") or d.get("details") or ""))
+            sys.exit(1)
+        p = subprocess.run([VENV_PY, os.path.join(ROOT, "pyvc", "replay_real.py"), path, REPO], env=env, cwd="/", capture_output=True, text=True)
+        print(p.stdout.strip())
+        if p.stderr.strip():
+            print(p.stderr.strip()[-800:])
+        try:
+            res = json.loads([l for l in p.stdout.strip().split("\n") if l.strip()][-1])
+        except Exception:
+            sys.exit(3)
+        # exit 1: the stored input makes the real code violate the clause again; exit 0: it does not (any more)
+        sys.exit(1 if res.get("reproduced") else 0)
     prop = a.prop
     tier = a.tier if a.tier in ("quick", "thorough") else "quick"
     seed = int(os.environ.get("VERIF_SEED", "0") or 0)
